@@ -246,7 +246,7 @@ Proof. exact to_string_unexport. Qed.
 
 Example C02_ex_to_string :
   x_sorted 3 ex_xval = true
-  /\ to_string big_fuel (unexport 3 false ex_xval) = ("""k""=""\""s\"",\""\"",\""7\"""",""n""=""true""", false, true).
+  /\ to_string (ts_need (unexport 3 false ex_xval)) (unexport 3 false ex_xval) = ("""k""=""\""s\"",\""\"",\""7\"""",""n""=""true""", false, true).
 Proof. split; vm_compute; reflexivity. Qed.
 
 (* the full claim, for every chain, is false of the model and of the implementation (known finding C02-tostring):
@@ -256,7 +256,7 @@ Proof. exact tostring_inherited_refuted. Qed.
 
 Example C02_ex_inherited :
   export big_fuel inherit_chain = Some inherit_value
-  /\ to_string big_fuel inherit_chain = ("""a""=""1""", false, false)
+  /\ to_string (ts_need inherit_chain) inherit_chain = ("""a""=""1""", false, false)
   /\ Corr.C02.jstring (S (x_depth inherit_value)) (x_to_json (S (x_depth inherit_value)) inherit_value)
      = """a""=""1"",""b""=""2""".
 Proof. exact (conj inherit_export (conj inherit_to_string inherit_jstring)). Qed.
